@@ -274,7 +274,7 @@ def cgsmiles_strings(seed, n_random, weights=False, pairs='some', stereo=True, m
         if pairs == 'all':
             yield from pair_strings(SITES2, SITES1 + SITES2)
         elif pairs == 'most':
-            yield from pair_strings(SITES2, SITES1)
+            yield from pair_strings(SITES2, SITES1[:10])
             yield from pair_strings(SITES2[:12], SITES2[:12])
         elif pairs == 'some':
             yield from pair_strings(SITES2[:8], SITES1[:6] + SITES2[:8])
